@@ -80,6 +80,9 @@ def prog_to_desc(prog):
                         'kind': prog['kind'][tag],
                         'ver': [1, 0, 0],
                         'svs': [{'name': s, 'ver': [1, 0, 0], 'vals': [{'name': n, 'ver': [1, 0, 0]} for n in ns]} for s, ns in sorted(svs.items())],
+                        # placement wish: a third of the algorithms ask for the cloud, a third for the cluster, the rest leave it open;
+                        # without a cloud provider all of them must reach the cluster crew
+                        **({'where': ('cloud', 'cluster')[sum(map(ord, tag)) % 3]} if sum(map(ord, tag)) % 3 < 2 else {}),
                         'refs': refs,
                         'feedback': [{'pkg': src.split('.')[0], 'alg': src.split('.')[1], 'gran': 'val', 'sv': v.split('.')[0], 'val': v.split('.')[1]} for src, v in sorted(prog.get('fb', {}).get(tag, []))],
                     }
@@ -365,6 +368,7 @@ def run(pid, tier, seed, replay=None):
     chk.mc('mc3', 'Sched_MC.tla', dict(spec='Spec', constants=consts(ALG3, 'Programs3Alg', 3 if thorough else 2), **props))
     chk.mc('mc3fb', 'Sched_MC.tla', dict(spec='Spec', constants=consts(ALG3, 'Programs3Fb', 2 if thorough else 1), extra=['CONSTRAINT RecBound'], **props))
     if thorough:
+        chk.mc('mc3self', 'Sched_MC.tla', dict(spec='Spec', constants=consts(ALG3, 'Programs3Self', 2), **props))
         chk.mc('mc3fault', 'Sched_MC.tla', dict(spec='Spec', constants=consts(ALG3, 'Programs3Alg', 2, maxfault=1), **props))
         chk.mc('mc3val', 'Sched_MC.tla', dict(spec='Spec', constants=consts(ALG3, 'Programs3Val', 2), **props))
         chk.mc('mc3reload', 'Sched_MC.tla', dict(spec='Spec', constants=consts(ALG3, 'Programs3Alg', 1, 1), **{k: [x for x in v if x != 'C03_NoDrop' or True] for k, v in props.items()}))
@@ -383,6 +387,13 @@ def run(pid, tier, seed, replay=None):
     # the 2-request instance with one (quick) / two (thorough) such passes, maximal histories only
     faulty = leaves(gen_focus_all(chk, 'Programs3Focus' if thorough else 'Programs3Quick', name='fault1t_all', maxrun=2, maxfault=2 if thorough else 1))
     faulty += leaves(gen_focus_all(chk, 'Programs3Fault', name='fault1t_mixed', maxrun=2, maxfault=2 if thorough else 1))
+    # an algorithm that reads its own earlier output (accumulator): no ordering edge to itself, it must still be released
+    selfs = leaves(gen_focus_all(chk, 'Programs3Self', name='self1t_all', maxrun=2))
+    chk.counters['self_reading_histories'] = len(selfs)
+    if not thorough:
+        rnd.shuffle(selfs)
+        selfs = selfs[:300] if pid == 'C02' else selfs[:1500]
+    focus += selfs
     # feedback declarations: a new fed-back value re-schedules its declarer (schedule.update "following feedback loop");
     # the loop goes on for as long as the value keeps changing, bounded here by the number of completions
     fbs = leaves(gen_focus_all(chk, 'Programs3Fb', name='fb1t_all', maxrun=2 if thorough else 1, constraint='RecBound'))
